@@ -15,7 +15,7 @@ from vmon.sched import Scheduler, INF, Deadlock
 from vmon.probes import OMBOTT_DIR
 
 RULE = ('request/handler kinds {echo (reads path, query, header, cookie; sets cookie, headers, status), post (reads body and forms), raised response, '
-        'abort, crash (500 page), 404, 405, oversized body (shared 413 object), redirect, lazy generator body, multipart upload (forms, files, fragmented stream), JSON body with signed cookies}, application-wide before/after hooks and a route hook that read and write the shared objects, x ordered pairs of kinds x schedules: '
+        'abort, crash (500 page), 404, 405, oversized body (shared 413 object), redirect, lazy generator body, multipart upload (forms, files, fragmented stream), JSON body with signed cookies, chunked body read byte-wise}, application-wide before/after hooks and a route hook that read and write the shared objects, x ordered pairs of kinds x schedules: '
         'all schedules with at most one preemption (quick) / at most two preemptions (thorough, for the listed pairs) at every statement of '
         'ombott/ and the handlers, plus seeded random multi-preemption schedules for 2 and 3 threads (each thread serving 1-2 requests). '
         'Non-trivial = at least one context switch happened while both threads were inside the framework; distinct = distinct (kinds, schedule).')
@@ -27,7 +27,7 @@ EXHAUSTIVE = {'quick': False, 'thorough': False,
 ASSUMPTIONS = ['statements inside the standard library are not preemption points; interleavings inside one statement are not explored',
                'every thread is a fresh thread or a worker serving requests one after another; the application object is the module default app (redirect needs it)']
 
-KINDS = ['echo', 'post', 'raise_resp', 'abort', 'crash', 'nf', 'na', 'big', 'redirect', 'gen', 'multipart', 'json']
+KINDS = ['echo', 'post', 'raise_resp', 'abort', 'crash', 'nf', 'na', 'big', 'redirect', 'gen', 'multipart', 'json', 'chunked']
 _APP = {}
 
 
@@ -165,6 +165,12 @@ def make_env(kind, m):
         body = ('{"m": "' + m + '", "l": [1, 2, 3]}').encode()
         sj = cookie_encode(('sj', {'who': m}), 'k').decode()
         return make_environ('POST', '/json', qs='m=' + m, body=body, content_type='application/json', headers={'Cookie': 'sj="' + sj + '"'})
+    if kind == 'chunked':
+        # several chunks with multi-digit sizes and an extension; the stream answers reads one byte at a time
+        parts = [('c-' + m) * 3, 'x' * 17, m]
+        raw = b''.join(b'%x%s\r\n%s\r\n' % (len(p), b';e=1' if i == 1 else b'', p.encode()) for i, p in enumerate(parts)) + b'0\r\n\r\n'
+        return make_environ('POST', '/post', qs='m=' + m, stream=RecStream(raw, 'one'), content_length=None, chunked=True,
+                            content_type='text/plain', headers={'X-M': m})
     if kind == 'gen':
         return make_environ('GET', '/gen/' + m, qs='m=' + m, headers={'X-M': m})
     raise ValueError(kind)
@@ -242,7 +248,7 @@ class Lab:
 
 
 PAIRS_QUICK = [('echo', 'echo'), ('echo', 'post'), ('raise_resp', 'echo'), ('crash', 'abort'), ('big', 'big'), ('nf', 'redirect'), ('gen', 'echo'), ('na', 'post'),
-               ('multipart', 'json'), ('json', 'echo')]
+               ('multipart', 'json'), ('json', 'echo'), ('chunked', 'chunked'), ('chunked', 'post')]
 
 
 def one_preemption(ctx, lab, a, b, stride=1):
